@@ -42,7 +42,7 @@ def patterns(rng, tab, addr, n):
 
 def gen(rng, tier):
     big = tier == 'thorough'
-    for _ in range(300 if big else 40):
+    for _ in range(300 if big else 80):
         tab = family_table(rng)
         lo, hi = tab.window()
         ops = [(0,)]
